@@ -95,8 +95,8 @@ def shard(col, shard_i, ngrammars, ninputs):
         # the sequence of action calls: impl logs the method name ('_default' for the fallback)
         calls_ok = True
         if extra and extra['impl_calls'] is not None and extra['model_bodies'] is not None:
-            methods = c.semspec[1]
-            mcalls = [n if (n in methods and methods[n] != 'none') else '_default' for n in extra['model_bodies']]
+            res = E.resolve_actions(c.semspec, names_of(c))
+            mcalls = [res[n] for n in extra['model_bodies']]
             calls_ok = list(extra['impl_calls']) == mcalls
             col.count('calls.compared')
         if io != mo or not calls_ok:
